@@ -377,6 +377,69 @@ def check_maintenance(ctx):
 SNAPSHOT_MAINT = {}
 
 
+def check_tx_keyspace_reads(ctx):
+    """the keyspaces of the two transactional databases are keyspaces as well: their point reads forward to the inner keyspace's method of the same name with the caller's key,
+    first/last_key_value go through a fresh read transaction's method of the same name; the result is handed back unchanged"""
+    for mod, nm in (('single_writer', 'SingleWriterTxKeyspace'), ('optimistic', 'OptimisticTxKeyspace')):
+        ob = ctx.ob(f'tx-keyspace-reads/{nm}', f'{nm}::get / size_of / contains_key / approximate_len call the inner Keyspace method of the same name with the same key; first_key_value / last_key_value '
+                    'call the read transaction\'s method of the same name on this keyspace; each returns that result unchanged', [f'{mod}::keyspace::<impl>::*'])
+        bad = []
+        for m in ('get', 'size_of', 'contains_key', 'approximate_len', 'first_key_value', 'last_key_value'):
+            pat = rf'^{mod}::keyspace::<impl>::{m}$'
+            try:
+                ex, paths = ctx.run(pat, cache_key='c01.txks.' + pat, loop_bound=2,
+                                    no_inline=[r'^keyspace::<impl>::(get|size_of|contains_key|approximate_len|path)$', r'Keyspace::(get|size_of|contains_key|approximate_len|path)$', r'read_tx$', r'(first|last)_key_value$'])
+            except KeyError:
+                continue
+            for p in paths:
+                if p.status in ('error', 'timeout'):
+                    ob.status = 'undecided'; ob.detail = f'executor: {p.status} {p.notes[-1:]}'; break
+                if p.status != 'returned':
+                    continue
+                ob.reach += 1
+                calls = [e for e in p.events if e.kind == 'CALL' and not e.args.get('callee', '').endswith('read_tx')]
+                if len(calls) != 1 or calls[0].args['callee'].rsplit('::', 1)[-1] != m:
+                    bad.append((p, f'{nm}::{m} answers through {[c.args["callee"] for c in calls]}')); break
+                c = calls[0]
+                if m in ('get', 'size_of', 'contains_key'):
+                    fr = p.st.frames[0] if p.st.frames else None
+                    key_in = deref(fr.locals[fr.fn.args[1]].val) if fr is not None else None
+                    key_out = deref(c.args['args'][1]) if len(c.args.get('args', [])) > 1 else None
+                    if key_in is None or key_out is None or (getattr(key_in, 'uid', 1) != getattr(key_out, 'uid', 2) and key_in is not key_out):
+                        bad.append((p, f'{nm}::{m} passes another key to the inner keyspace')); break
+                same = (p.ret is c.res) or (getattr(p.ret, 'disc', 1) is getattr(c.res, 'disc', 2)) or (z3.is_expr(p.ret) and z3.is_expr(c.res) and z3.eq(p.ret, c.res)) or \
+                       (getattr(deref(p.ret), 'uid', 1) == getattr(deref(c.res), 'uid', 2))
+                if not same:
+                    bad.append((p, f'{nm}::{m} does not return the inner result unchanged')); break
+            if bad or ob.detail:
+                break
+        if ob.detail:
+            continue
+        if ob.reach == 0:
+            ob.status = 'undecided'; ob.detail = 'vacuous'
+        elif not bad:
+            ob.status = 'discharged'; ob.sample = {'paths': ob.reach}
+        else:
+            ctx.candidate(ob, f'{nm}/read-not-forwarded', f'{ob.id}: {bad[0][1]}', confirm=lambda mod=mod: native_tx_keyspace_reads(ctx, 'single' if mod == 'single_writer' else 'opt'))
+
+
+def native_tx_keyspace_reads(ctx, kind):
+    """the reference-map battery on a transactional database: every read of the driver goes through the transactional keyspace's own methods"""
+    K = ['6b31', '6b32', '6b33', '6b39']
+    L = ['dir $DIR/db', f'kind {kind}', 'open workers=0', 'ks a'] + [f'wreads a {k}' for k in K] + ['insert a 6b32 32', 'insert a 6b31 3131', 'insert a 6b33 -'] + [f'wreads a {k}' for k in K] + \
+        ['remove a 6b31', 'rotate a', 'worker_drain'] + [f'wreads a {k}' for k in K] + ['close']
+    spath, out = ctx.run_scenario('\n'.join(L) + '\n', tag=f'txks-reads-{kind}')
+    rs = [(c, r) for _i, c, r in out]
+    if any(c == 'CRASH' for c, _r in rs):
+        return True, spath, 'crash: ' + rs[-1][1][-200:]
+    for c, r in rs:
+        if c == 'wreads' and r.startswith('w['):
+            wv, iv = r[2:].split('] i[')
+            if wv != iv.rstrip(']'):
+                return True, spath, f'a read through the transactional keyspace answers {wv}, the keyspace itself answers {iv.rstrip("]")}'
+    return False, spath, 'held natively'
+
+
 def run(ctx):
     ctx.assumptions += [
         'E1-E8: lsm-tree implements an MVCC ordered map (insert/remove/get/scan at an instant, flush/compaction keep the latest version and everything above the watermark)',
@@ -395,6 +458,7 @@ def run(ctx):
     # applied after) only because it holds the journal lock across the tree ingestion: the obligation of C14, part of "point reads and scans agree"
     from . import c14
     c14.check_ingestion(ctx)
+    check_tx_keyspace_reads(ctx)
     # every tree of the database (new, recovered, meta) must be wired to the same two counters in the same roles (shared obligations, see wiring.py)
     from . import wiring
     wiring.check_all(ctx)
@@ -404,6 +468,8 @@ def run(ctx):
 
 
 MUTANTS = [
+    {'name': 'single-writer keyspace: last_key_value answers with first_key_value', 'edits': [('src/tx/single_writer/keyspace.rs', "        read_tx.last_key_value(self)", "        read_tx.first_key_value(self)")]},
+    {'name': 'optimistic keyspace: contains_key asks for size_of', 'edits': [('src/tx/optimistic/keyspace.rs', "        self.inner.contains_key(key)", "        self.inner.size_of(key).map(|x| x.is_some_and(|n| n > 0))")]},
     {'name': 'remove applies to the tree with seqno + 1', 'edits': [('src/keyspace/mod.rs', """        let (item_size, memtable_size) = self.tree.remove(key, seqno);
 
         self.supervisor.snapshot_tracker.publish(seqno);
